@@ -9,7 +9,7 @@ CHECKS = {
          "Every CA/CF x DF x type-code cell and every value of frame bits 6-19 of the short/long surveillance formats is decoded with random fills and compared with an independent Annex-10 bit extractor; the address text round trip is enumerated completely. Exhaustive over each header field, sampled over the remaining payload bits.",
          "Trusts the harness's reference extractor (refdec.rs) and Annex 10 bit positions as quoted there; payload bits outside the enumerated field are sampled, not enumerated.", "3 C04"),
  "C06": ("exploration", "exhaustive enumeration of all altitude codes x carriers vs. independent Gillham/25ft reference (differential)",
-         "All 8192 AC13 codes in DF0/4/16/20 and all 4096 AC12 codes in each of the 13 type codes under DF17 and DF18 are decoded with random surroundings and compared with a reference written from Annex 10; the code space is covered completely, the surroundings are sampled.",
+         "All 8192 AC13 codes in DF0/4/16/20 and all 4096 AC12 codes in each of the 13 type codes under DF17 and DF18 are decoded with random surroundings and compared with a reference written from Annex 10; the code space is covered completely, the surroundings are sampled; every 13-bit code is also decoded right after each of its one-bit neighbours, and the first altitude codes of fresh processes are decoded by eight threads at once.",
          "Trusts refdec::ac13_ft/ac12_ft/gillham_ft; an altitude of exactly 0 ft may be shown as none or 0.", "3 C06"),
  "C07": ("exploration", "exhaustive 2^22 / 2^11 / 2^8 field sweeps vs. reference decoder and atan2/hypot velocity model",
          "Every direction/component word of both ground-speed subtypes, every vertical-rate word in every subtype, every GNSS-difference word and every NACv/flag word is decoded and compared field by field; calculate() is compared with an independent model, also in the alloc-only build; one long-lived tracker record receives a walk of 60 000 (1.5 million) reports that differ from their predecessor in one field group and must show the latest derived velocity.",
@@ -18,7 +18,7 @@ CHECKS = {
          "Every 6-bit code at every one of the 8 positions, every ordered pair of positions with 16 representative codes, every pair of codes at adjacent positions, every space/non-space pattern, and random strings, in all four carriers; the report shows the decoded call sign and category; one long-lived tracker record shows the latest identification and stays tracked through it, also when position reports (accepted or refused by the range check) follow.",
          "Interior spaces may be kept or dropped (statement only says padding is removed).", "3 C08"),
  "C09": ("exploration", "exhaustive enumeration of all 8192 identity codes x carriers vs. reference de-interleaver",
-         "All identity codes in DF5, DF21 and type 28 under DF17/DF18 with random surroundings; the complete subtype x emergency x code product of type 28; the report shows the four digits and the frame survives a serde JSON round trip for every code in every carrier; one frame in eight also through from_reader (mid-stream, fragmented, and behind a copy of itself).",
+         "All identity codes in DF5, DF21 and type 28 under DF17/DF18 with random surroundings; the complete subtype x emergency x code product of type 28; every code also right after each of its 13 one-bit neighbours; the first identity codes of fresh processes decoded by eight threads at once; the report shows the four digits and the frame survives a serde JSON round trip for every code in every carrier; one frame in eight also through from_reader (mid-stream, fragmented, and behind a copy of itself).",
          "Trusts refdec::squawk_of.", "3 C09"),
  "C10": ("exploration", "walking-field / walking-one enumeration + generated frames vs. reference bit-field decoder (differential)",
          "Each field of each interpreted ME/MB layout takes every value (or edge + random values when wider than 12 bits) with all other bits random, under DF17, DF18 x CF 0..7, DF20, DF21; single-one payloads locate each bit's owner; the BDS dispatch byte is swept; every value of the 17-bit CPR fields and every joint value of two fields up to 10 (14) combined bits; one frame in eight also through from_reader.",
@@ -36,25 +36,25 @@ CHECKS.update({
          "crc == remainder mod 0x1FFF409 on random, single-byte and double-byte frames; the three meanings on constructed frames (all 128 II codes); all error patterns of weight <= 3 (<= 5 thorough) and all bursts <= 24 bits with bounded interior weight (all 2^22 interiors thorough) on 10 valid base frames never give checksum 0; the checksum of a sample also in the alloc-only build (child process), through a serialize/deserialize round trip, and through a reader with one transient Interrupted before each of its first 18 read calls; no checksum for a buffer shorter than the frame; a format of which no constructed frame is reported at all is a violation.",
          "Error detection is enumerated over patterns, not over all base frames; patterns that turn the frame into a 56-bit or rejected frame are excluded.", "3 C03"),
  "C05": ("exploration", "round trip through a reference CPR encoder (inverse), exact integer reference decoder (differential), exhaustive zone-latitude probes",
-         "True positions over the whole sphere (poles, equator, antimeridian, every NL transition) with displacements <= 3 NM in both orders decode to within the quantisation error and re-encode to the second report; raw pairs are rejected when inconsistent; every reachable zone latitude of both parities is probed for its longitude-zone count.",
+         "True positions over the whole sphere (poles, equator, antimeridian, every NL transition) with displacements <= 3 NM in both orders decode to within the quantisation error and re-encode to the second report; raw pairs are rejected when inconsistent; every reachable zone latitude of both parities is probed for its longitude-zone count; pairs decoded as the first act of a fresh process (equator, poles, grid origins, transitions) must give the warm answer.",
          "NL reference = closed formula; recovered latitudes within 1e-7 deg of a transition are don't-care.", "3 C05"),
  "C11": ("exploration", "generated frames vs. independent template renderer (differential), validated against the 45 pinned strings of the test suite",
          "Every format/type/subtype with the renderer's branch conditions targeted; Display must equal the reference templates instantiated with the decoded frame's own fields; non-empty except DF19; every value of every printed numeric field is swept (all 1024 x 1024 velocity component pairs, rates, altitude and identity codes, target-state words); a sample is rendered by the alloc-only build (child process) and compared with the same template.",
          "The templates are those pinned by the README/test suite as re-implemented in render.rs; field correctness is C04-C10.", "3 C11"),
  "C12": ("exploration", "proptest histories (vec of ops + interpreter) vs reference tracker model; isolation metamorphic relation",
-         "Histories of DF17/DF18 squitters of every payload kind (one in 16 with a flipped parity bit: decoded, checksum not zero) from 1-6 interleaved aircraft, non-squitter formats with the same addresses, waits and expiry; added flag, key set, message counts compared after every op; record(H) == record(H restricted to the aircraft); crowds of 700-2100 (70 000) distinct addresses incl. blocks of consecutive ones; one aircraft heard 90 000 (1.3 million) times; generated histories interpreted by the alloc-only build (child process).",
+         "Histories of DF17/DF18 squitters of every payload kind (one in 16 with a flipped parity bit: decoded, checksum not zero) from 1-6 interleaved aircraft, non-squitter formats with the same addresses, waits and expiry; added flag, key set, message counts compared after every op; record(H) == record(H restricted to the aircraft); crowds of 700-2100 (70 000) distinct addresses incl. blocks of consecutive ones; one aircraft heard 90 000 (1.3 million) times; thin traffic in real time (an aircraft heard every 100 ms with expiry after every frame is never removed or re-added); generated histories interpreted by the alloc-only build (child process).",
          "Frames are real bytes decoded by the library; histories up to 40 ops.", "4 C12"),
  "C13": ("exploration", "proptest histories vs reference model with reference great-circle distance and CPR encoder",
-         "Consistent flights, jumps around 100 km, positions at 0.99/1.01 x range, garbage CPR, repeated reports (also bit-identical ones), eight receiver sites (poles, antimeridian, equator, two with the same latitude), the receiver moving within a history; publish/clear decision, stored reports (incl. altitude), distance and the published position list compared after every position report; deterministic flights across each of the 58 zone transitions in both hemispheres; crowds of 900 / 2500 (40 000) positioned aircraft.",
+         "Consistent flights, jumps around 100 km, positions at 0.99/1.01 x range, garbage CPR, repeated reports (also bit-identical ones), eleven receiver sites (poles, antimeridian, equator, two with the same latitude, three within 100-700 km of the first), range limits incl. 40 075 km and infinity, the receiver moving within a history (directed: by 100 km and by exactly one odd longitude zone while an aircraft is tracked); publish/clear decision, stored reports (incl. altitude), distance and the published position list compared after every position report; deterministic flights across each of the 58 zone transitions in both hemispheres; crowds of 900 / 2500 (40 000) positioned aircraft.",
          "get_position is the pairing function (decided by C05), either argument order accepted; thresholds within 1e-6 are don't-care.", "4 C13"),
  "C14": ("exploration", "proptest histories; latest-wins model + invariants after every op",
          "Callsign/heading/speed/rate latest-wins; distance<=>position, all_position, details, track order, to_string checked for every record after every op (histories include the last report of a parity re-sent bit for bit); a 9 000 (40 000)-report flight of one aircraft whose track must equal the earlier publications; positioned crowds.",
          "Lenient: entries wiped by a clear may be absent from the track; consecutive duplicate entries collapsed.", "4 C14"),
  "C15": ("exploration", "proptest histories with a back-dating hook; model with exact ages",
-         "Advance/Prune ops with ages in 0.5 s steps on both sides of T (incl. T = 0 and T near u64::MAX); surviving key set, untouched survivors (also with a track of thousands of entries), re-added aircraft start empty, no re-add without expiry; crowds of 300-3000 (70 000) aircraft of which every second one expires in one call.",
+         "Advance/Prune ops with ages in 0.5 s steps on both sides of T (incl. T = 0 and T near u64::MAX); surviving key set, untouched survivors (also with a track of thousands of entries), re-added aircraft start empty (no call sign, position, track or velocity), no re-add without expiry; thin traffic in real time; crowds of 300-3000 (70 000) aircraft of which every second one expires in one call.",
          "Uses the verif_hooks feature (Airplanes::verif_backdate); real elapsed time per case must stay below 0.3 s or the case is inconclusive.", "4 C15"),
  "C19": ("fault_enumeration", "exhaustive injection of transient read errors and short reads over the recorded call trace + proptest schedules; slice decode differential",
-         "For frames of every accepted class and fragment sizes 64/1/2: 1-3 consecutive Interrupted before every read call and all pairs of injection points; runs of 70 and 300 Interrupted; random schedules; from_reader == from_bytes, repeatability, captures of several frames through one reader, the same result when a frame is decoded first in a fresh process or after other frames in another fresh process, and the same result from the alloc-only build (child process) reading fragments of 1-64 bytes with Interrupted at each of its first 14 read calls.",
+         "For frames of every accepted class and fragment sizes 64/1/2: 1-3 consecutive Interrupted before every read call and all pairs of injection points; runs of 70 and 300 Interrupted; random schedules; from_reader == from_bytes, repeatability, captures of several frames through one reader (a decode that does not come back is saved by a watchdog and confirmed by bounded re-runs), the same result when a frame is decoded first in a fresh process or after other frames in another fresh process, and the same result from the alloc-only build (child process) reading fragments of 1-64 bytes with Interrupted at each of its first 14 read calls.",
          "The scripted reader consumes nothing on Interrupted (std semantics); hard I/O errors are out of scope.", "3 C19"),
  "C20": ("exploration", "differential std process vs alloc-only child process on generated frames and histories; serde JSON round trip",
          "Byte-identical transcripts (decode, render, velocity, pairing, full tracker dump after every step) between the std build and the libraries built with default-features=false, features=[alloc]; serde round trip of frames and tracker states incl. continued behaviour; constructed exact ties of the CPR zone-index rounding; every frame also through the alloc-only build's reader path with fragments of 1-14 bytes and transient Interrupted errors; addresses 000000 / ffffff and two addresses differing in the last octet in the histories.",
@@ -63,13 +63,13 @@ CHECKS.update({
 
 CHECKS.update({
  "C16": ("exploration", "Hypothesis-generated feeds x segmentations x delays x connection drops (FIN and RST) against the real binaries (pty/TCP/log black box); expected line sequence oracle",
-         "Well-formed lines interleaved with 32 kinds of malformed line (every kind under every option set of both clients on every run), cut anywhere (also inside non-ASCII runs) with pauses on both sides of the 50 ms read timeout, one silence of 2.6 s per case in front of a line that is then split, dropped at arbitrary byte offsets with and without --retry-tcp; the well-formed lines must be processed exactly once in order by both clients, the clients must survive, exit cleanly on disconnect or reconnect (also after the server was unreachable for 12 s, attempts timing out, or gone for 1, 4 and 9 s, attempts refused) and keep their aircraft.",
+         "Well-formed lines (incl. frames made of ff / 00 bytes, upper-case hex digits, the same line three times in a row) interleaved with 36 kinds of malformed line (every kind under every option set of both clients on every run), cut anywhere (also inside non-ASCII runs) with pauses on both sides of the 50 ms read timeout, one silence of 2.6 s per case in front of a line that is then split, dropped at arbitrary byte offsets with and without --retry-tcp; the well-formed lines must be processed exactly once in order by both clients, the clients must survive, exit cleanly on disconnect or reconnect (also after the server was unreachable for 12 s, attempts timing out, or gone for 1, 4 and 9 s, attempts refused) and keep their aircraft.",
          "Timing is requested, not controlled: the verdict never depends on measured time. Failures that depend on kernel scheduling may not reproduce on every replay (replay retries 5 times).", "5 C16"),
  "C17": ("exploration", "Hypothesis-generated operator sessions (keys, key bursts, SGR mouse, resizes, traffic, expiry, option sets) on a real pty; liveness / exit status / termios / escape-sequence oracle; CLI invalid-value grammar",
-         "After every step the radar process must be alive without a panic; quit (q / Ctrl-C, also while waiting for the connection) must exit 0 with termios restored, mouse reporting off and the cursor visible; invalid option values (incl. arguments that are not UTF-8) must be clap usage errors. Swept on every run: the invalid-value grammar, every listed kind of line that is not a frame on every tab, a feed that never pauses (other protocol, all-zero frames, noise, frames) and a reconnected feed (quiet or busy) followed by keys, a resize and every way of quitting, every pair of selection/view keys as one burst on every tab, every listed --scale and receiver position (NaN, inf, poles), expiry on every tab, 400 aircraft, a silent / talking gpsd daemon while quitting, 150-key bursts on the waiting screen.",
+         "After every step the radar process must be alive without a panic; quit (q / Ctrl-C, also while waiting for the connection) must exit 0 with termios restored, mouse reporting off and the cursor visible; invalid option values (incl. arguments that are not UTF-8) must be clap usage errors. Swept on every run: the invalid-value grammar, every listed kind of line that is not a frame on every tab, a feed that never pauses (other protocol, all-zero frames, noise, frames) and a reconnected feed (quiet or busy) followed by keys, a resize and every way of quitting, every pair of selection/view keys as one burst on every tab, every listed --scale and receiver position (NaN, inf, poles), expiry on every tab, 400 aircraft, a scrolled table whose aircraft all expire at once, 9-21 zoom steps with tracked aircraft, a silent / talking gpsd daemon while quitting, 150-key bursts on the waiting screen.",
          "Each step waits 120 ms for the event loop; the terminal is a pty driven by a minimal VT emulator, not a real terminal emulator.", "5 C17"),
  "C18": ("exploration", "Hypothesis-generated scenarios; screen (VT-emulated) vs tracker state computed by the real library (differential); map metamorphic relations (direction, proportionality, zoom, pan, reset)",
-         "Airplanes tab rows and titles equal the tracker's records, Stats totals equal added events / peak count, markers lie on the correct side of the centre at proportional offsets (self-calibrated), view controls leave the tables unchanged and reset restores the map cell for cell; aircraft heard via DF18 or first heard with a status / target-state squitter; receiver position delivered by a gpsd server that also sends GST / SKY / no-fix reports; 'newly added' judged by the tracked set; expiry scenarios judged on radar's own logged processing times incl. a silent phase after which the screen must be empty without any key; thorough: a 10 050-frame aircraft.",
+         "Airplanes tab rows and titles equal the tracker's records, Stats totals equal added events / peak count, markers lie on the correct side of the centre at proportional offsets (self-calibrated), view controls leave the tables unchanged and reset restores the map cell for cell; centring the view on an aircraft puts its marker at the canvas centre at every zoom level; aircraft heard via DF18 or first heard with a status / target-state squitter; receiver position delivered by a gpsd server that also sends GST / SKY / no-fix reports; 'newly added' judged by the tracked set; expiry scenarios judged on radar's own logged processing times incl. a silent phase after which the screen must be empty without any key; thorough: a 10 050-frame aircraft.",
          "Expected table content is produced by rsadsb_common (helper) from the same frames; marker cells are recognised by colour with --disable-heading/--disable-track and attributed by place on a settled snapshot; screen/tracker differences count only if they persist for 5 s.", "5 C18"),
 })
 NOT_YET = {}
